@@ -100,21 +100,29 @@ func (_this *Session) GetIteratorForType(t reflect.Type) IteratorFunction {
 		return storedIterator.(IteratorFunction)
 	}
 
+	simYield("iter:miss")
 	var wg sync.WaitGroup
 	var iterator IteratorFunction
 
 	wg.Add(1)
 	storedIterator, loaded := _this.iteratorFuncs.LoadOrStore(t, IteratorFunction(func(context *Context, value reflect.Value) {
+		simYield("iter:ph-enter")
 		wg.Wait()
+		simYield("iter:ph-woke")
 		iterator(context, value)
 	}))
 	if loaded {
+		simYield("iter:lost")
 		return storedIterator.(IteratorFunction)
 	}
+	simYield("iter:installed")
 
 	iterator = _this.getDefaultIteratorForType(t)
+	simYield("iter:generated")
 	wg.Done()
+	simYield("iter:done")
 	_this.iteratorFuncs.Store(t, iterator)
+	simYield("iter:stored")
 	return iterator
 }
 
